@@ -796,6 +796,20 @@ func checkMain(args []string) int {
 	if inconclusive > 0 {
 		fmt.Printf("INCONCLUSIVE parts (reduced bound, not success): unsupported=%v leftover_tasks=%d errors=%v\n", agg.unsupMsgs, leftover, agg.errs)
 	}
+	if os.Getenv("GOSYM_VERBOSE") != "" {
+		type kv struct{ ob, n int }
+		var l []kv
+		for ob, n := range agg.obligPaths {
+			l = append(l, kv{ob, n})
+		}
+		sort.Slice(l, func(i, j int) bool { return l[i].n > l[j].n })
+		for i, e := range l {
+			if i >= 15 {
+				break
+			}
+			fmt.Printf("  heavy obligation: %s%v paths=%d\n", obligs[e.ob].Harness, obligs[e.ob].Args, e.n)
+		}
+	}
 	if len(agg.panicMsgs) > 0 && os.Getenv("GOSYM_VERBOSE") != "" {
 		fmt.Println("panics:", agg.panicMsgs)
 	}
